@@ -18,7 +18,7 @@ def table_of(spec):
 def check_set_value(rng, W):
     import numpy as np
 
-    mag = rng.choice(["small", "float", "big", "hugeint"])
+    mag = rng.choice(["small", "float", "big", "hugeint", "int63"])
     spec = relgen.gen_spec(rng, "matrix", nvars=rng.randint(0, 4) if rng.random() < 0.9 else 0, mag=mag, max_dom=3)
     if not spec.get("vars"):
         spec = {"kind": "matrix", "name": "r0", "mag": mag, "vars": [], "table": {"()": relgen.draw_value(rng, mag)}}
@@ -69,7 +69,7 @@ def gen_operand(rng, pool_vars, mag):
 def check_join(rng, W):
     from pydcop.dcop.relations import join
 
-    mag = rng.choice(["small", "float", "big"])
+    mag = rng.choice(["small", "float", "big", "hugeint", "int63"])
     pool_vars = relgen.draw_vars(rng, rng.randint(1, 4), 3)
     s1, s2 = gen_operand(rng, pool_vars, mag), gen_operand(rng, pool_vars, mag)
     s1["name"], s2["name"] = "u1", "u2"
@@ -88,17 +88,29 @@ def check_join(rng, W):
     for a in relgen.all_assignments(union):
         want = relgen.spec_value(s1, a) + relgen.spec_value(s2, a)
         got = j(**a) if a else j.get_value_for_assignment([])
-        if not relgen.same(got, want):
+        if not (same_to_double(got, want) if mag in ("hugeint", "int63") else relgen.same(got, want)):
             return "join:value", "join value at %r is %r, expected %r" % (a, got, want)
     W["nontrivial"] = bool(s1["vars"]) and bool(s2["vars"]) and s1["vars"] != s2["vars"]
     return None, None
+
+
+def same_to_double(got, want):
+    """join and projection results live in float64 tables: beyond 2^53 the defining value is matched to double precision
+    (a few ulp), not digit by digit - anything else (a wrapped 64-bit sum, a wrong sign, a wrong operand) is far outside"""
+    if relgen.same(got, want):
+        return True
+    try:
+        g, w = float(got), float(want)
+    except Exception:
+        return False
+    return g == g and abs(g - w) <= abs(w) * 2.0 ** -50
 
 
 def check_projection(rng, W):
     from pydcop.dcop.relations import projection
 
     mode = rng.choice(["min", "max"])
-    mag = rng.choice(["small", "float", "big"])
+    mag = rng.choice(["small", "float", "big", "hugeint", "int63"])
     spec = relgen.gen_spec(rng, rng.choice(["matrix", "matrix", "func_kwargs"]), nvars=rng.randint(1, 4), mag=mag, max_dom=3)
     rel, cache = relgen.build_relation(spec)
     xn = rng.choice([v[0] for v in spec["vars"]])
@@ -117,7 +129,7 @@ def check_projection(rng, W):
             vals.append(relgen.spec_value(spec, b))
         want = min(vals) if mode == "min" else max(vals)
         got = proj(**a) if a else proj.get_value_for_assignment([])
-        if not relgen.same(got, want):
+        if not (same_to_double(got, want) if mag in ("hugeint", "int63") else relgen.same(got, want)):
             return "projection:value", "projection(%s) over %s at %r is %r, expected %r" % (mode, xn, a, got, want)
     W["nontrivial"] = len(spec["vars"]) >= 2
     return None, None
